@@ -427,5 +427,11 @@ PROPS["C13"]["explanation"] += " (SELFCMP) a same-file guard in the V interface 
 PROPS["C13"]["rules"] = PROPS["C13"]["rules"] + [rules_handles.rule_cache_full_scan]
 PROPS["C13"]["explanation"] += " (FULLSCAN) every loop over the atom lookup cache covers all of its slots, so a released id is purged from each of them."
 
+PROPS["C20"]["rules"] = PROPS["C20"]["rules"] + [rules_limits.rule_end_sum_terms]
+PROPS["C20"]["explanation"] += " (ENDSUM) every INT32_MAX guard of Hwrite contains both per-call terms of the end-of-write sum, the position and the length."
+
+PROPS["C04"]["rules"] = PROPS["C04"]["rules"] + [rules_cache.rule_fill_covers_chunk]
+PROPS["C04"]["explanation"] += " (FILLCOVER) the fill of a never-written chunk's cache page is computed from the chunk's element count and element size, so it covers the whole page."
+
 NOT_APPLICABLE = {}
 
